@@ -552,11 +552,24 @@ def _tables(ctx, prog):
     ctx.require(len(ld) == 1, "evo_res: load_results_as_dataframe call not "
                 "found")
     b = ld[0].data["bound"]
-    ok = b.get("result_files") is A("result_files") and \
+    rf = b.get("result_files")
+    RF = A("result_files")
+    # the file list itself, or one computed from it by a helper (expanding
+    # directories, ...) — but not a re-ordered / truncated / set-ified list
+    direct = rf is RF
+    derived = rf is not None and not direct and any(
+        x is RF for x in rf.walk()) and not any(
+        (x.op == "sub" and x.args[0] is RF and x.args[1].op == "slice") or
+        (is_call_to(x, "builtins.sorted", "builtins.reversed",
+                    "builtins.set", "builtins.frozenset") and x.args[1] and
+         x.args[1][0] is RF) for x in rf.walk())
+    ok = (direct or derived) and \
         b.get("use_filenames") is A("use_filenames") and \
         b.get("merge") is A("merge")
     ctx.ob("C13.6", ld[0], ok,
            "evo_res: files / --use_filenames / --merge reach the loader"
+           + ("" if direct else " (file list computed from the given paths "
+              "by a helper; its expansion rules are not decided here)")
            if ok else f"evo_res loader wiring: "
                       f"{ {k: fmt(v) for k, v in b.items()} }",
            key="C13.6:res:loader")
@@ -567,7 +580,8 @@ def _tables(ctx, prog):
         is_call_to(x, ".count") for x in e.live.walk())]
     ok = bool(dup)
     if ok:
-        cond = [a for a in tm.atoms(dup[0].live)][0]
+        cond = [a for a in tm.atoms(dup[0].live)
+                if any(is_call_to(x, ".count") for x in a.walk())][0]
         ok = all(tm.fold(s.live, lambda t: True if t is cond else None)
                  is False for s in sv)
     ctx.ob("C13.6", sv[0], ok,
